@@ -65,7 +65,7 @@ def get_posterior(sc, b):
     return r.sol.solution_full.posterior, r.sol, r.rec.abstract_string(), r.attempts
 
 
-def chain_joint(post, S):
+def chain_joint(post, S, return_parts=False):
     """Means and joint covariance of all output times from the embedded backward factorisation, in
     Nordsieck-scaled coordinates x_k h^k/k! (S = the scaling vector): unscaled arithmetic would bury
     the low-order variances under the rounding of the high-order ones."""
@@ -77,6 +77,7 @@ def chain_joint(post, S):
     covs = [None] * (nc + 1)
     As = [None] * nc
     means[nc], covs[nc] = S * mT, PT * onp.outer(S, S)
+    bs = [None] * nc
     for i in range(nc - 1, -1, -1):
         ci = tu.tree_map(lambda a: a[i], cond)
         A, bb, Q = embed.cond_np(ci)
@@ -84,6 +85,7 @@ def chain_joint(post, S):
         bb = S * bb
         Q = Q * onp.outer(S, S)
         As[i] = A
+        bs[i] = bb
         means[i] = A @ means[i + 1] + bb
         covs[i] = A @ covs[i + 1] @ A.T + Q
     J = onp.zeros(((nc + 1) * D, (nc + 1) * D))
@@ -95,6 +97,8 @@ def chain_joint(post, S):
             C = M @ covs[j]
             J[i * D:(i + 1) * D, j * D:(j + 1) * D] = C
             J[j * D:(j + 1) * D, i * D:(i + 1) * D] = C.T
+    if return_parts:
+        return onp.stack(means), J, As, bs
     return onp.stack(means), J
 
 
